@@ -17,7 +17,7 @@ SEED_CHECKS = {'C01-a': ['C01', 'C12'], 'C12-a': ['C12'], 'C13-a': ['C13'], 'C05
                'C13-b': ['C13'], 'C15-b': ['C15'], 'C17-b': ['C17'], 'C18-b': ['C18'],
                'C01-c': ['C01', 'C08'], 'C02-c': ['C02', 'C17'], 'C03-c': ['C03'], 'C05-c': ['C05'], 'C06-c': ['C06', 'C18'], 'C07-c': ['C07'],
                'C08-c': ['C08', 'C03'], 'C16-a': ['C16'], 'C04-c': ['C04'], 'C09-c': ['C09'], 'C11-c': ['C11'], 'C12-c': ['C12'], 'C13-c': ['C13'],
-               'C15-c': ['C15'], 'C17-c': ['C17'], 'C18-c': ['C18', 'C08']}
+               'C15-c': ['C15'], 'C17-c': ['C17'], 'C18-c': ['C18', 'C08'], 'C10-c': ['C10']}
 
 
 def run(pid):
